@@ -40,6 +40,20 @@ pub fn main(args: &[String]) {
                 used.count_positions(depth, &mut b, side)
             });
             results.insert("used".into(), match u { Ok(n) => json!({"n": n}), Err(p) => json!({"panic": p}) });
+            // a generator that has served every other kind of question about this position first
+            // (check tests and attack maps for both colours, move lists for both colours)
+            let busy = guarded(|| {
+                let mut b = pos.setup();
+                let mut g = MoveGenerator::new();
+                for c in [side.opposite(), side] {
+                    chess::evaluate::player_is_in_check(&b, &mut g, c);
+                    g.get_attack_targets(&b, c);
+                }
+                g.generate_moves(&mut b, side.opposite());
+                g.generate_moves_and_lazily_update_chess_move_effects(&mut b, side);
+                g.count_positions(depth, &mut b, side)
+            });
+            results.insert("used_for_other_queries".into(), match busy { Ok(n) => json!({"n": n}), Err(p) => json!({"panic": p}) });
             let inner = guarded(|| {
                 let mut b = pos.setup();
                 let mut g = MoveGenerator::new();
